@@ -51,6 +51,14 @@ Theorem C16_split_pieces : forall s t,
   t <> [] -> Forall (fun p => contains p t = false) (split s t).
 Proof. exact split_pieces. Qed.
 
+(* split, recursively: no separator -> one piece; otherwise cut at the FIRST occurrence and go on
+   after it (leftmost, non-overlapping).  Together with C16_indexof this determines split. *)
+Theorem C16_split_rec : forall s t,
+  t <> [] ->
+  (find s t = None -> split s t = [s]) /\
+  (forall p q, s = p ++ t ++ q -> find s t = Some (blen p) -> split s t = p :: split q t).
+Proof. exact split_rec. Qed.
+
 (* ---- substring --------------------------------------------------------------------------------- *)
 
 (* Ok exactly on in-range char-boundary offsets, and then the byte slice [a, b) *)
@@ -78,6 +86,11 @@ Theorem C16_substr_cmd3 : forall s a b rest st en,
   parse_isize a = Some st -> parse_isize b = Some en ->
   cmd_substring (s :: a :: b :: rest) = substring3 s st en.
 Proof. exact cmd_substring3. Qed.
+
+Theorem C16_substr_cmd : forall s a b rest m,
+  cmd_substring (s :: a :: b :: rest) = RVal m <->
+  exists st en, parse_isize a = Some st /\ parse_isize b = Some en /\ substring3 s st en = RVal m.
+Proof. exact cmd_substring3_iff. Qed.
 
 (* ---- range ------------------------------------------------------------------------------------- *)
 
